@@ -363,7 +363,13 @@ func (g *progGen) reserveStmt(depth int) []*tw.Stmt {
 		before := g.Feat["nested-assign"]
 		body := g.block(max(depth-1, 0), false)
 		if rapid.Bool().Draw(g.rt, "insertAssigns") {
-			body = append(body, g.assign())
+			// (not to the variable of a @for whose body holds the reserve: the insert runs in that body,
+			// and a loop whose variable is set back in every pass never ends)
+			if st := g.assign(); st.Name != avoidAssign {
+				body = append(body, st)
+			} else {
+				body = append(body, g.read())
+			}
 		}
 		if len(g.scopes) > 1 && g.Feat["nested-assign"] > before {
 			g.Feat["insert-assigns-in-nested-block"]++
